@@ -14,6 +14,9 @@
    pose number min(m, own length) - premise decided exactly by TLC (PoseAt).  The "Fine*" bases are also concretized by their
    small-angle image (path increments and the tilt between the sources of a group scaled by 1e-5 .. 1e-7: steps of 1e-3 .. 1e-5
    degrees), the canonical lattice frame against a generic frame.
+   RigidMove steps with a `via` are a second REALISATION of the same abstract step: the objects built in the first frame are put
+   into a Collection (flat; nested two levels deep with inner collections at other positions) and moved through it - rotate with
+   anchor=None, rotate about anchor 0, position / orientation setters (static members only), move - same Covariance clause.
 3. spec/TV_Laws re-checks the premise and judges obs2 = g.obs1 (signed permutation; identity for Sensor readings) with
    the tolerance of the distance class, Placement likewise, and for the small-angle images also the CHANGE of the field along
    the path (difference to step 1, two-limb values, tolerance 1e-9 of the gross scale: a frozen path is rejected); Reconcretize steps compare the same abstract configuration under two different
